@@ -22,8 +22,8 @@ REQUIRED = {
     "quick": {"evaluations/FCNAgent": 1500, "evaluations/MarketShareFCNAgent": 500, "evaluations/MarketMakerAgent": 800,
               "evaluations/ArbitrageAgent": 400, "class/fcn_buy": 400, "class/fcn_sell": 400,
               "class/fcn_normal_margin": 300, "class/mm_base_from_quotes": 200, "class/mm_base_from_market_price": 100,
-              "class/arb_inside_threshold": 150, "class/arb_outside_threshold_index_cheap": 80,
-              "class/arb_outside_threshold_index_rich": 80, "class/arb_near_threshold": 100,
+              "class/arb_inside_threshold": 150, "class/arb_outside_threshold_index_cheap": 55,
+              "class/arb_outside_threshold_index_rich": 55, "class/arb_near_threshold": 100,
               "orders_checked_wellformed": 3000, "class/share_choice_checked": 300},
     "thorough": {"evaluations/FCNAgent": 60000, "evaluations/MarketShareFCNAgent": 15000,
                  "evaluations/MarketMakerAgent": 24000, "evaluations/ArbitrageAgent": 12000, "class/fcn_buy": 12000,
